@@ -520,7 +520,11 @@ func (w *Writer) scannerFrom(pos int64, canObjStm bool) (*scanner, error) {
 // Put writes an indirect object to the PDF file, using the given reference.
 func (w *Writer) Put(ref Reference, obj Object) error {
 	if w.inStream {
-		w.afterStream = append(w.afterStream, allocatedObject{ref, obj})
+		// The object is written when the stream is closed.  What is written
+		// then is the value the object has now: the caller may change or
+		// reuse its dictionaries and arrays after Put has returned, exactly
+		// as for a Put which writes at once.
+		w.afterStream = append(w.afterStream, allocatedObject{ref, snapshotObject(obj, w.outputOptions)})
 		return nil
 	}
 
@@ -573,6 +577,46 @@ func (w *Writer) Put(ref Reference, obj Object) error {
 	}
 
 	return nil
+}
+
+// snapshotObject returns a copy of obj which shares no dictionary, array or
+// string with it.  Placeholders are shared on purpose, and the data of a
+// stream is read when the stream is written.
+func snapshotObject(obj Object, opt OutputOptions) Object {
+	if obj == nil {
+		return nil
+	}
+	switch x := obj.AsPDF(opt).(type) {
+	case Array:
+		if x == nil {
+			return x
+		}
+		res := make(Array, len(x))
+		for i, elem := range x {
+			res[i] = snapshotObject(elem, opt)
+		}
+		return res
+	case Dict:
+		if x == nil {
+			return x
+		}
+		res := make(Dict, len(x))
+		for key, val := range x {
+			res[key] = snapshotObject(val, opt)
+		}
+		return res
+	case String:
+		return String(bytes.Clone(x))
+	case *Stream:
+		if x == nil {
+			return x
+		}
+		res := *x
+		res.Dict, _ = snapshotObject(x.Dict, opt).(Dict)
+		return &res
+	default:
+		return x
+	}
 }
 
 // WriteCompressed writes a number of objects to the file as a compressed
